@@ -147,7 +147,7 @@ def git_ignored(repo, rels):
 
 # ------------------------------------------------------------------ space
 
-CONFIGS = [('absln', 'opt', ''), ('absdd', 'opt', 'dfs'), ('tworepo', 'opt', ''), ('tworepo2', 'opt', ''), ('tworepo-aba', 'opt', ''), ('tworepo-bab', 'opt', 'dfs'), ('dot', 'opt', ''), ('rel', 'opt', ''), ('abs', 'opt', 'dfs'), ('subdir', 'opt', ''), ('dot', 'config', ''),
+CONFIGS = [('absln', 'opt', ''), ('absdd', 'opt', 'dfs'), ('tworepo', 'opt', ''), ('tworepo2', 'opt', ''), ('tworepo-aba', 'opt', ''), ('tworepo-bab', 'opt', 'dfs'), ('tworepo-above', 'opt', ''), ('tworepo-above', 'opt', 'dfs'), ('dot', 'opt', ''), ('rel', 'opt', ''), ('abs', 'opt', 'dfs'), ('subdir', 'opt', ''), ('dot', 'config', ''),
            ('dot', 'config-no', ''), ('dot', 'off', ''), ('two', 'opt', ''), ('abs', 'opt', ''), ('subdir', 'opt', 'dfs')]
 
 
@@ -233,6 +233,10 @@ def eval_group(env, group, tier):
                     cwd, scope = holder, ''
                     r1, r2 = "'" + repo + "'" + rootopts, "'" + repo2 + "'" + rootopts
                     frm = (r1 + ', ' + r2) if spelling == 'tworepo' else (r2 + ', ' + r1)
+                    if spelling == 'tworepo-above':    # one root above both repositories (git only: the other tools have one context)
+                        if tool != 'git':
+                            continue
+                        frm = "'" + os.path.dirname(repo) + "'" + rootopts
                     if spelling == 'tworepo-aba':      # first repository, second, first again (two sub-directories of it)
                         scope = 'src|docs'
                         frm = "'%s'%s, %s, '%s'%s" % (os.path.join(repo, 'src'), rootopts, r2, os.path.join(repo, 'docs'), rootopts)
@@ -265,6 +269,8 @@ def eval_group(env, group, tier):
                     extra2 = sorted('@2/' + e for e in e2 if not (active and e.endswith('only2')))
                 for p in o.rows():
                     ap = os.path.realpath(os.path.dirname(os.path.normpath(os.path.join(cwd, p)))) + '/' + os.path.basename(p)
+                    if spelling == 'tworepo-above' and ap in (repo, repo2):
+                        continue
                     if ap.startswith(repo2 + '/'):
                         r2_ = os.path.relpath(ap, repo2)
                         if not (r2_ == '.git' or r2_.startswith('.git/') or r2_ == '.hg'):
